@@ -536,6 +536,19 @@ class Hessdiag(Derivative):
         options.pop('n', None)
         super(Hessdiag, self).__init__(f, step=step, method=method, n=2, order=order, **options)
 
+    def _get_functions(self, args, kwds):
+        diff, fun = super(Hessdiag, self)._get_functions(args, kwds)
+
+        def scalar_fun(x):
+            # a scalar function may return its value as an array with a single element
+            f_x = fun(x)
+            shape = getattr(f_x, 'shape', ())
+            if len(shape) > 0 and getattr(f_x, 'size', 0) == 1:
+                return f_x[(0,) * len(shape)]
+            return f_x
+
+        return diff, scalar_fun
+
     def __call__(self, x, *args, **kwds):
         return super(Hessdiag, self).__call__(np.atleast_1d(x), *args, **kwds)
 
